@@ -624,6 +624,53 @@ func isSliceOrString(t types.Type) bool {
 	return isString(t)
 }
 
+// windowBase: every value reaching the phi is obtained from one base value by
+// slicing (x[a:], x[a:b]) — through further phis — and the base is not itself
+// such a value. suffix reports that no slice expression had an upper bound.
+func windowBase(ph *ssa.Phi) (base ssa.Value, suffix bool) {
+	seen := map[ssa.Value]bool{}
+	suffix = true
+	sliced := false
+	var walk func(v ssa.Value) bool
+	walk = func(v ssa.Value) bool {
+		if seen[v] {
+			return true
+		}
+		seen[v] = true
+		switch x := v.(type) {
+		case *ssa.Phi:
+			for _, e := range x.Edges {
+				if !walk(e) {
+					return false
+				}
+			}
+			return true
+		case *ssa.Slice:
+			if !isSliceOrString(x.X.Type()) {
+				return false
+			}
+			if x.High != nil || x.Max != nil {
+				suffix = false
+			}
+			sliced = true
+			return walk(x.X)
+		case *ssa.ChangeType:
+			return walk(x.X)
+		case *ssa.Parameter:
+			if base != nil && base != v {
+				return false
+			}
+			base = v
+			return true
+		}
+		return false
+	}
+	if !walk(ph) || base == nil || !sliced {
+		return nil, false
+	}
+	return base, suffix
+}
+
 // sliceDesc describes a slice- or string-typed value (nil for other types).
 func (fa *FA) sliceDesc(v ssa.Value) *SliceDesc {
 	if d, ok := fa.sd[v]; ok {
@@ -697,6 +744,57 @@ func (fa *FA) sliceDesc1(v ssa.Value) *SliceDesc {
 	case *ssa.MakeSlice:
 		return &SliceDesc{Root: v, Off: linConst(0), Len: fa.expand(v.Len), Cap: fa.expand(v.Cap)}
 	case *ssa.Phi:
+		// a cursor kept as an advancing sub-slice (rest = rest[n:]): every incoming value is a window of one
+		// and the same underlying slice; the phi is then that slice at a running offset
+		if base, suffix := windowBase(v); base != nil {
+			if bd := fa.sliceDesc(base); bd != nil && bd.Root == base && bd.Off.isConst() && bd.Off.C.Sign() == 0 {
+				ph := v
+				offID := A.atom("sliceoff:"+fa.vkey(v), func(a *Atom) {
+					a.Kind = aVal
+					a.Fn = fa.fn
+					a.owner = fa
+					a.Block = ph.Block()
+					a.Name = fa.fn.Name() + ".off(" + ph.Name() + ")"
+					a.Lo = bi(0)
+					a.Hi = pow2(62)
+				})
+				d := &SliceDesc{Root: base, Off: linAtom(offID), IsString: bd.IsString}
+				if suffix {
+					d.Len = bd.Len.sub(d.Off)
+					if bd.Cap != nil {
+						d.Cap = bd.Cap.sub(d.Off)
+					}
+					if d.IsString {
+						d.Cap = d.Len
+					}
+				} else {
+					rd := fa.rootDesc(v)
+					d.Len, d.Cap = rd.Len, rd.Cap
+				}
+				fa.sd[v] = d // before the edges are looked at: they refer back to the phi
+				oa := A.at(offID)
+				if oa.Phi == nil {
+					oa.Phi = &phiInfo{Block: ph.Block(), In: func(i int) *Lin {
+						if dd := fa.sliceDesc(ph.Edges[i]); dd != nil && dd.Root == base {
+							return dd.Off
+						}
+						return linAtom(A.fresh(oa))
+					}}
+				}
+				if !suffix {
+					la := A.at(fa.lenAtom(v, aLen))
+					if la.Phi == nil {
+						la.Phi = &phiInfo{Block: ph.Block(), In: func(i int) *Lin {
+							if dd := fa.sliceDesc(ph.Edges[i]); dd != nil {
+								return dd.Len
+							}
+							return linAtom(A.fresh(la))
+						}}
+					}
+				}
+				return d
+			}
+		}
 		d := fa.rootDesc(v)
 		la := A.at(fa.lenAtom(v, aLen))
 		if la.Phi == nil {
